@@ -26,8 +26,9 @@ func init() { streams["init"] = runInit }
 
 type initCase struct {
 	Stops   int      `json:"stops"`
-	Pairs   [][2]int `json:"pairs,omitempty"`  // two-stop units
-	Groups  [][]int  `json:"groups,omitempty"` // groups of UNITS, each unit named by its first stop
+	Pairs   [][2]int `json:"pairs,omitempty"`   // two-stop units
+	Groups  [][]int  `json:"groups,omitempty"`  // groups of UNITS, each unit named by its first stop
+	OneOfs  [][]int  `json:"one_ofs,omitempty"` // one-of units (alternatives): groups of UNITS, at most one of which may be planned
 	L       []int    `json:"initial"`
 	Fixed   []int    `json:"fixed,omitempty"`
 	Est     []int    `json:"est,omitempty"` // units (named by their first stop) the estimate rejects
@@ -121,6 +122,33 @@ func genInitCase(rng *rand.Rand) initCase {
 			j += k
 		} else {
 			j++
+		}
+	}
+	// one-of units over units that are in no group (a third of the cases): the initial stops may list several alternatives
+	if rng.Intn(3) == 0 {
+		inGroup := map[int]bool{}
+		for _, g := range c.Groups {
+			for _, f := range g {
+				inGroup[f] = true
+			}
+		}
+		var free []int
+		for _, f := range unitFirst {
+			if !inGroup[f] {
+				free = append(free, f)
+			}
+		}
+		for k := 0; k+1 < len(free); {
+			if rng.Intn(2) == 0 {
+				n := 2
+				if k+2 < len(free) && rng.Intn(3) == 0 {
+					n = 3
+				}
+				c.OneOfs = append(c.OneOfs, append([]int(nil), free[k:k+n]...))
+				k += n
+			} else {
+				k++
+			}
 		}
 	}
 	// initial stops: most of the stops, random order; now and then a stop is left out (a group or a pair listed in part)
@@ -269,6 +297,16 @@ func runInitCase(o *Out, c *initCase) {
 		_, e := model.NewPlanAllPlanUnits(true, us...)
 		must(e)
 	}
+	var oneOfRoots []int
+	for _, g := range c.OneOfs {
+		var us nextroute.ModelPlanUnits
+		for _, f := range g {
+			us = append(us, unitByFirst[f])
+		}
+		u, e := model.NewPlanOneOfPlanUnits(us...)
+		must(e)
+		oneOfRoots = append(oneOfRoots, u.Index())
+	}
 	first, e := model.NewStop(loc(100))
 	must(e)
 	last, e := model.NewStop(loc(101))
@@ -344,6 +382,9 @@ func runInitCase(o *Out, c *initCase) {
 	line := fmt.Sprintf("init %s %s %s %s %s %s %s %s %s %s %s", csvOrDash(l), csvI(sIdx), strings.Join(uo, ","), strings.Join(ro, ","),
 		csvOrDash(fx), csvOrDash(estU), csvOrDash(toIdx(c.NT)), csvPairs(idxPairs(c.NTAfter)), csvOrDash(toIdx(c.T)),
 		csvPairs(idxPairs(c.TAfter)), csvOrDash(toIdx(c.TVeh)))
+	if len(oneOfRoots) > 0 {
+		line += " " + csvOrDash(oneOfRoots)
+	}
 
 	var sol nextroute.Solution
 	var serr error
@@ -380,7 +421,19 @@ func runInitCase(o *Out, c *initCase) {
 			partGroup = true
 		}
 	}
-	kinds := fmt.Sprintf("group=%v pair=%v part=%v fixed=%v est=%v nt=%v t=%v tveh=%v", len(c.Groups) > 0, len(c.Pairs) > 0, partGroup,
+	altsListed := 0
+	for _, g := range c.OneOfs {
+		n := 0
+		for _, f := range g {
+			if inL[f] {
+				n++
+			}
+		}
+		if n > altsListed {
+			altsListed = n
+		}
+	}
+	kinds := fmt.Sprintf("oneof-listed=%d ", altsListed) + fmt.Sprintf("group=%v pair=%v part=%v fixed=%v est=%v nt=%v t=%v tveh=%v", len(c.Groups) > 0, len(c.Pairs) > 0, partGroup,
 		len(c.Fixed) > 0, len(c.Est) > 0, len(c.NT)+len(c.NTAfter) > 0, len(c.T)+len(c.TAfter) > 0, len(c.TVeh) > 0)
 	if serr != nil {
 		if p := os.Getenv("VERIF_DEBUG"); p != "" {
@@ -432,12 +485,46 @@ func runInitCase(o *Out, c *initCase) {
 		r := rootIndex(s.PlanStopsUnit())
 		rootStops[r] = append(rootStops[r], s.Index())
 	}
+	isOneOf := map[int]bool{}
+	for _, r := range oneOfRoots {
+		isOneOf[r] = true
+	}
 	for r, ss := range rootStops {
 		n := 0
 		for _, s := range ss {
 			if onRoute[s] {
 				n++
 			}
+		}
+		if isOneOf[r] {
+			// at most one alternative, and that one whole
+			members := map[int][]int{}
+			for _, s := range ss {
+				for _, ms := range stops {
+					if ms.Index() == s {
+						members[ms.PlanStopsUnit().Index()] = append(members[ms.PlanStopsUnit().Index()], s)
+					}
+				}
+			}
+			planned := 0
+			for _, mss := range members {
+				k := 0
+				for _, s := range mss {
+					if onRoute[s] {
+						k++
+					}
+				}
+				if k != 0 && k != len(mss) {
+					viol("C03", "unit-partly-planned", fmt.Sprintf("an alternative of one-of unit %d has %d of its %d stops on the route %s", r, k, len(mss), engRoute(route)))
+				}
+				if k > 0 {
+					planned++
+				}
+			}
+			if planned > 1 {
+				viol("C03", "more-than-one-alternate", fmt.Sprintf("%d alternatives of one-of unit %d are on the route %s", planned, r, engRoute(route)))
+			}
+			continue
 		}
 		if n != 0 && n != len(ss) {
 			viol("C03", "group-partly-planned", fmt.Sprintf("unit %d has %d of its %d stops on the route %s", r, n, len(ss), engRoute(route)))
